@@ -33,7 +33,7 @@ CANARIES = {
         ("boolean-socket-option", "stix2/v21/observables.py", "text", ["if isinstance(val, bool) or not isinstance(val, int):", "if not isinstance(val, int):"], "C02.constraints"),
     ],
     "C03": [
-        ("extra-required", "stix2/v21/sdo.py", "bool-flip", ["Indicator", "True -> False", "default=lambda: False"], "C03.table"),
+        ("revoked-default-flipped", "stix2/v21/sdo.py", "bool-flip", ["Indicator", "False -> True", "lambda: False"], "C03.table"),
         ("vocabulary-entry-lost", "stix2/v21/vocab.py", "drop-list-element", ["OPINION_AGREE", "OPINION_"], "C03.table"),
         ("empty-string-means-absent", "stix2/base.py", "text", ["if prop_val not in (None, []):", "if prop_val not in (None, [], ''):"], "C03.absent-values"),
         ("named-argument-by-truthiness", "stix2/v21/common.py", "text", ["if statement is not None and kwargs.get('statement') is None:", "if statement and not kwargs.get('statement'):"], "C03.absent-values"),
@@ -63,14 +63,15 @@ CANARIES = {
         ("contributing-name-lost", "stix2/v21/observables.py", "drop-list-element", ["'serial_number'"], "C06.table"),
         ("hash-priority-typo", "stix2/base.py", "str-perturb", ["_choose_one_hash", "'SHA-256'"], "C06.constants"),
         ("insertion-order-first-hash", "stix2/base.py", "text", ["k = next(iter(sorted(hash_dict)), None)", "k = next(iter(hash_dict), None)"], "C06.constants"),
-        ("id-none-taken-for-an-id", "stix2/v21/base.py", "text", ["if kwargs.get('id') is None:", "if 'id' not in kwargs:"], "C06.wiring"),
+        ("id-none-taken-for-an-id", "stix2/v21/base.py", "text", ["if kwargs.get('id') in (None, []):", "if 'id' not in kwargs:"], "C06.wiring"),
+        ("empty-list-taken-for-an-id", "stix2/v21/base.py", "text", ["if kwargs.get('id') in (None, []):", "if kwargs.get('id') is None:"], "C06.wiring"),
         ("tuples-hashed-as-text", "stix2/base.py", "text", ["elif isinstance(value, (list, tuple)):", "elif isinstance(value, list):"], "C06.wiring"),
         ("extension-inserted-after-id", "stix2/custom.py", "text", ["            _cls_init(cls, self, kwargs)\n", "            _cls_init(cls, self, kwargs)\n            self._inner['extensions'] = {}\n"], "C06.wiring"),
     ],
     "C07": [
         ("path-prefix", "stix2/markings/granular_markings.py", "drop-bool-operand", ["get_markings", "inherited", "drop operand 1", "startswith"], "C07.query-siblings"),
         ("normal-form-skipped", "stix2/markings/granular_markings.py", "drop-self-assign-call", ["add_markings", "compress_markings"], "C07.normal-form"),
-        ("in-place-edit", "stix2/markings/granular_markings.py", "negate-if", ["set_markings"], "C07.new-version"),
+        ("object-itself-returned", "stix2/markings/object_markings.py", "text", ["    return new_version(obj, object_marking_refs=list(object_markings), allow_custom=True)", "    obj['object_marking_refs'] = list(object_markings)\n    return obj"], "C07.new-version"),
         ("lang-not-forwarded", "stix2/markings/__init__.py", "text", ["granular_markings.set_markings(obj, marking, selectors, marking_ref, lang)", "granular_markings.set_markings(obj, marking, selectors, marking_ref)"], "C07.forward"),
         ("substring-selector-match", "stix2/markings/granular_markings.py", "text", ["if s in granular_marking.get('selectors', []):", "if s in granular_marking.get('selectors', [])[0]:"], "C07.whole-selectors"),
     ],
@@ -142,7 +143,7 @@ CANARIES = {
     ],
     "C16": [
         ("window-off-by-one", "stix2/canonicalization/NumberToJson.py", "int+1", ["21 -> 22"], "C16.number-constants"),
-        ("escape-entry-lost", "stix2/canonicalization/Canonicalize.py", "drop-dict-entry", ["'\\\\t'"], "C16.escapes"),
+        ("escape-entry-lost", "stix2/canonicalization/Canonicalize.py", "drop-dict-entry", ["drop entry '\\t'"], "C16.escapes"),
     ],
     "C17": [
         ("wrapper-handler-lost", "stix2/base.py", "drop-except-handler", ["_STIXBase._check_property", "except Exception"], "C17.wrapper"),
